@@ -2,6 +2,7 @@
    its rows, of a function of the row alone. *)
 From Coq Require Import String Lia Permutation.
 From Morph Require Import Base.UStr Gen.Tables Model.Terms Model.Data Model.Engine Proofs.DataP Proofs.GroupingP.
+From Morph Require Export Model.Fragment.
 Local Open Scope N_scope.
 
 Definition okeq {A} (a b : result A) : Prop := forall x, a = Ok x <-> b = Ok x.
@@ -104,8 +105,6 @@ Section Plain.
   Definition frame_lines (rl : rule) (d : frame) : result (list ustr) :=
     rdo ls <- rmap_all (row_lines rl) d; Ok (concat ls).
 
-  Definition plain_rule (rl : rule) : bool :=
-    negb (all_constant rl) && negb (mkind_eqb (r_sk rl) KQuoted) && negb (mkind_eqb (r_ok rl) KQuoted) && negb (mkind_eqb (r_ok rl) KParent).
   Definition rule_ref_set (rl : rule) : list ustr := dedup ((rule_refs (fn_table fe) (refs_fuel rules) rules false rl ++ []) ++ []).
 
   (* the engine, on a plain rule, is the row-wise function over the frame it reads *)
